@@ -271,5 +271,12 @@ func c19(c *core.Ctx) {
 	c.Clause("C19.6", "a goroutine the engine starts in a loop works on its own iteration's value: the loop-variable capture rule of C20.1 (package chain/consensus included) is evaluated here as well — goroutines that share the range variable read it while the loop writes it")
 	c.Run("loop-closures", func() { c20LoopClosures(c) })
 
+	c.Clause("C19.7", "no lock is taken twice and a record that only moves forward is compared and written under one hold: the re-entry rule of C15.4 (now including a read lock taken inside a read lock of the same mutex — a writer waiting in between blocks the inner one for good) is evaluated here over the engine's packages; every store into Confirmer.lastSig follows a read of it with no unlock in between")
+	c.Run("reentry", func() {
+		n := noReentry(c, la, map[string]bool{cons: true, "chain": true, "chain/miner": true, "store": true, "chain/deputynode": true, "chain/txpool": true, "chain/account": true})
+		c.Floor("reentry/functions-scanned", n, 300)
+	})
+	c.Run("lastSig-check-then-act", func() { c19LastSigCheckThenAct(c) })
+
 	c.NotDecidedf("linearizability of concurrent requests; validity of emitted signatures as values; races inside goleveldb / metrics; accesses the must-lockset approximation cannot attribute are reported, not assumed safe; lock identity is per type, not per instance")
 }
